@@ -38,6 +38,12 @@ Second reading (gen_fix_q): the same source of _fix with day/hour/minute/second/
  meeting it is k * D, `v > c` is `c * D < n`, divmod(v, c) = (n / (c*D), n mod (c*D)), _sign(v) = sign of n;
  gen_normalized_q reads normalized() the same way: int(v) = Z.quot n D, round(v, k) = v (IDEALISED: exact
  only where the value has at most k decimals), round(v) = nearest integer, ties to even.
+DOMAIN of the integer reading (mirrored by hypotheses of the C16_gen_* theorems, coq/rd/RdAlgBound.v):
+ `_sign(x)` = int(copysign(1, x)) is read as -1 / +1; the code raises OverflowError for |x| >= 2^1024
+ (float_range); `float(other)` and `int(field * f)` in __mul__ are read as the exact integer product, which is
+ what the code computes only while other and every product are below 2^53 in absolute value (mul_exact);
+ int()/round() in normalized() likewise.  Outside these bounds the generated definitions describe an IDEALISED
+ relativedelta over unbounded Python ints, not the code (check_C16 exercises both sides).
 Semantics: Python ints are Coq Z; divmod/ // / % are Z.div / Z.modulo (floor, sign of divisor).
 """
 import ast
